@@ -97,6 +97,7 @@ type interpreter struct {
 	concPos            int
 	concAsserts        []string
 	concObs            []string
+	lastFn             string
 }
 
 type deferred struct {
